@@ -180,6 +180,18 @@ def generate(tier):
                         req(sh, traits, f={(vi, i): ['%s(rank = %d)' % (carrier, MINR + 7)]}))
                     bad('rank-twice', '%s|%s|v%d|explicit%d=default%d' % (sk, carrier, vi, j, i), req(sh, traits, f={(vi, j): ['%s(rank = "%d")' % (carrier, MINR + i)]}),
                         req(sh, traits, f={(vi, j): ['%s(rank = "%d")' % (carrier, MINR + 9)]}))
+    # the same on five-field elements: every pair of positions
+    SN5, EN5 = X('struct', [('n', 5)]), X('enum', [('t', 1), ('u', 0), ('n', 5), ('t', 5)])
+    for sk, sh in (('sn5', SN5), ('en5', EN5)):
+        for traits, carrier in ((['PartialEq', 'PartialOrd'], 'PartialOrd'), (['PartialEq', 'Eq', 'PartialOrd', 'Ord'], 'Ord')):
+            for vi, (s_, n) in enumerate(sh.variants):
+                if n < 5:
+                    continue
+                for i, j in itertools.combinations(range(n), 2):
+                    bad('rank-twice', '%s|%s|v%d|%d=%d' % (sk, carrier, vi, i, j), req(sh, traits, f={(vi, i): ['%s(rank = 7)' % carrier], (vi, j): ['%s(rank(7))' % carrier]}),
+                        req(sh, traits, f={(vi, i): ['%s(rank = 7)' % carrier], (vi, j): ['%s(rank(8))' % carrier]}))
+                    bad('rank-twice', '%s|%s|v%d|explicit%d=default%d' % (sk, carrier, vi, i, j), req(sh, traits, f={(vi, i): ['%s(rank = %d)' % (carrier, MINR + j)]}),
+                        req(sh, traits, f={(vi, i): ['%s(rank = %d)' % (carrier, MINR + 11)]}))
     # 4. an Into target given twice -------------------------------------------------------------------------
     for sk, sh in shapes[:3]:
         bf, bv = markers(sh, ['Into'])
@@ -240,6 +252,19 @@ def generate(tier):
                     fb[(vi, i)] = traits
                     fb[(vi, j)] = [t]
                     bad('designation', '%s|two|%s|v%d|%d,%d' % (t, sk, vi, i, j), req(sh, traits, f=fb, drop_markers=traits), req(sh, traits, f=tw, drop_markers=traits))
+    for t in ('Deref', 'DerefMut', 'Into(u8)'):
+        traits = {'Deref': ['Deref'], 'DerefMut': ['Deref', 'DerefMut'], 'Into(u8)': ['Into']}[t]
+        sh = X('enum', [('t', 1), ('n', 5), ('t', 5)])
+        for vi in (1, 2):
+            fo = {(w, 0): [m for m in (['Deref'] if 'Deref' in traits else []) + (['DerefMut'] if 'DerefMut' in traits else []) + (['Into(u8)'] if 'Into' in traits else [])]
+                  for w in range(3) if w != vi and sh.variants[w][1] > 1}
+            for i, j in itertools.combinations(range(5), 2):
+                fb = dict(fo)
+                fb[(vi, i)] = fo.get((2 if vi == 1 else 1, 0), [t]) if False else [m for m in (['Deref'] if 'Deref' in traits else []) + (['DerefMut'] if 'DerefMut' in traits else []) + (['Into(u8)'] if 'Into' in traits else [])]
+                fb[(vi, j)] = [t]
+                tw = dict(fb)
+                del tw[(vi, j)]
+                bad('designation', '%s|two|en5|v%d|%d,%d' % (t, vi, i, j), req(sh, traits, f=fb, drop_markers=traits), req(sh, traits, f=tw, drop_markers=traits))
     for sk, sh in shapes[:3]:
         for vi, (s, n) in enumerate(sh.variants):
             fo = {(w, 0): ['Into(u8)'] for w in range(len(sh.variants)) if w != vi}
